@@ -445,6 +445,21 @@ theorem set_members_wrong_container (m : MemberSetter) (ci : ClassInfo) (w : Wor
     (hk : kindIn k m.kinds = false) : m.run ci w k us = (w, some m.kindErr) := by
   simp [MemberSetter.run, hk]
 
+/-- histories that mix `add` with assignments: a new member contributes its own current value at the end of every read,
+and distinctness of members is preserved — so `wf_step` / `history_last_write_wins` apply again after each `add` -/
+theorem read_after_add (ci : ClassInfo) (w : World) (u : Nat) (ht : typeOk w.heap ci.accepted u = true) (b : Attr) :
+    readEach (addObserver ci w u).1 b = readEach w b ++ [(w.heap u).attrs b] ∧
+    (w.members.Nodup → u ∉ w.members → (addObserver ci w u).1.members.Nodup) := by
+  constructor
+  · simp [addObserver, ht, readEach]
+  · intro hnd hu
+    simp only [addObserver, ht, if_true]
+    exact List.nodup_append.mpr ⟨hnd, List.nodup_singleton u, by
+      intro a ha b' hb'
+      simp only [List.mem_singleton] at hb'
+      subst hb'
+      exact fun e => hu (e ▸ ha)⟩
+
 /-! ### retrieval by index, slice and unique name -/
 
 /-- `group[i]`, both families: the i-th member; out of range is an `IndexError` -/
